@@ -5,8 +5,6 @@ namespace Driver
 /-! requests `rate.*` (see DESIGN.md Appendix A).  Rationals cross the tie as `[numerator, denominator]`
 (normalised, denominator > 0) so that nothing is rounded. -/
 
-def jint (n : Int) : Json := Json.num (JsonNumber.fromInt n)
-
 def jrat (q : Rat) : Json := Json.arr #[jint q.num, jnat q.den]
 
 def ratOf (v : Json) : Except String Rat := do
